@@ -26,7 +26,11 @@ type HarnessFile struct {
 type Stub struct {
 	File string `json:"file"` // relative to /repo, or absolute
 	Recv string `json:"recv,omitempty"`
-	Func string `json:"func"`
+	Func string `json:"func,omitempty"`
+	// Call, e.g. "elliptic.UnmarshalCompressed": every call pkg.Name(...) in
+	// File goes through the variable VCall_pkg_Name (initialised to the real
+	// function) which a harness may reassign.
+	Call string `json:"call,omitempty"`
 }
 
 type Entry struct {
@@ -247,6 +251,55 @@ func stubFile(file string, stubs []Stub) ([]byte, error) {
 	}
 	var extra bytes.Buffer
 	for _, s := range stubs {
+		if s.Call != "" {
+			parts := strings.SplitN(s.Call, ".", 2)
+			if len(parts) != 2 {
+				return nil, fmt.Errorf("stub: call %q must be pkg.Name", s.Call)
+			}
+			vname := "VCall_" + parts[0] + "_" + parts[1]
+			hits := 0
+			// every use of pkg.Name (call or function value) becomes the variable
+			var rewrite func(n ast.Node) bool
+			repl := func(e ast.Expr) ast.Expr {
+				if se, ok := e.(*ast.SelectorExpr); ok {
+					if id, ok := se.X.(*ast.Ident); ok && id.Name == parts[0] && se.Sel.Name == parts[1] {
+						hits++
+						return &ast.Ident{Name: vname, NamePos: se.Pos()}
+					}
+				}
+				return e
+			}
+			rewrite = func(n ast.Node) bool {
+				switch x := n.(type) {
+				case *ast.CallExpr:
+					x.Fun = repl(x.Fun)
+					for i := range x.Args {
+						x.Args[i] = repl(x.Args[i])
+					}
+				case *ast.KeyValueExpr:
+					x.Value = repl(x.Value)
+				case *ast.AssignStmt:
+					for i := range x.Rhs {
+						x.Rhs[i] = repl(x.Rhs[i])
+					}
+				case *ast.ReturnStmt:
+					for i := range x.Results {
+						x.Results[i] = repl(x.Results[i])
+					}
+				}
+				return true
+			}
+			for _, d := range f.Decls {
+				if fd, ok := d.(*ast.FuncDecl); ok {
+					ast.Inspect(fd, rewrite)
+				}
+			}
+			if hits == 0 {
+				return nil, fmt.Errorf("stub: no call of %s in %s (the code the check depends on was refactored)", s.Call, file)
+			}
+			fmt.Fprintf(&extra, "\n// %s routes the calls of %s in this file (generated by gosym).\nvar %s = %s\n", vname, s.Call, vname, s.Call)
+			continue
+		}
 		var fd *ast.FuncDecl
 		for _, d := range f.Decls {
 			d, ok := d.(*ast.FuncDecl)
